@@ -155,3 +155,41 @@ pub fn stub_rook(c: Coord, occ: Bitboard) -> Bitboard {
 pub fn stub_bishop(c: Coord, occ: Bitboard) -> Bitboard {
     Bitboard::from_raw(rs::slide_ref(c.index() as u8, occ.as_raw(), &rs::BISHOP_D))
 }
+
+/// from-scratch Zobrist hash over the key tables of the build under test: side key for White,
+/// en-passant key of the marked square, castling key of the rights set, piece key of every
+/// occupied square.  Neither counter is read.
+pub fn ref_hash(raw: &RawBoard) -> u64 {
+    use crate::zobrist;
+    let mut h = if raw.side == Color::White { zobrist::MOVE_SIDE } else { 0 };
+    if let Some(p) = raw.ep_source { h ^= zobrist::enpassant(p); }
+    h ^= zobrist::castling(raw.castling);
+    let mut r = 0;
+    while r < 8 { let mut f = 0; while f < 8 {
+        let i = r * 8 + f;
+        let c = raw.cells[i];
+        if rs::ci(c) != 0 { h ^= zobrist::pieces(c, coord(i as u8)); }
+        f += 1; } r += 1; }
+    h
+}
+
+/// a fully arbitrary raw board (cell-primary): every assignment of the 13 cell values to the 64
+/// squares, side, rights, any mark, any counters
+pub fn any_raw() -> RawBoard {
+    let mut cells = [Cell::EMPTY; 64];
+    let mut r = 0;
+    while r < 8 { let mut f = 0; while f < 8 { let c = vk::any_u8(); vk::assume(c < 13); cells[r * 8 + f] = cell(c); f += 1; } r += 1; }
+    let side = any_color();
+    let cr = vk::any_u8(); vk::assume(cr < 16);
+    let epi = vk::any_u8(); vk::assume(epi <= 64);
+    let raw = RawBoard { cells, side, castling: CastlingRights::from_index(cr as usize),
+        ep_source: if epi == 64 { None } else { Some(coord(epi)) }, move_counter: vk::any_u16(), move_number: vk::any_u16() };
+    #[cfg(not(kani))]
+    vk::note(&format!("raw fen={} (mark={:?})", raw.as_fen(), raw.ep_source));
+    raw
+}
+
+/// stand-in for `movegen::has_legal_moves` where only its *contract* matters to the caller: an
+/// otherwise unused bit of the position serves as the free boolean "the side to move has a
+/// legal move" (the move number is not read by any outcome logic)
+pub fn stub_has_legal_moves(b: &Board) -> bool { b.r.move_number & 1 == 1 }
